@@ -8,9 +8,17 @@
 //!
 //! What the oracle demands per cell – and why this is no more than the statement:
 //!  * every offer/answer API call returns `Ok`                       ("a complete offer/answer exchange succeeds");
-//!  * `wait_for_connected()` resolves `Ok` on both ends              ("both report Connected"); an `Err`
-//!    (the connection itself reported Failed/Closed) is a violation, our own watchdog firing is
-//!    *inconclusive* (no wall-clock verdicts);
+//!  * `wait_for_connected()` resolves `Ok` on both ends              ("both report Connected within the
+//!    configured timeouts"); an `Err` (the connection itself reported Failed/Closed) is a violation.  A
+//!    connect that neither completes nor fails is decided by a *stall witness* (DESIGN 2.3, quiet form), not
+//!    by a deadline: all configurable connection-phase timers are set small (`T_*` below), B = the sum of
+//!    the configured timeouts that can elapse before Connected or a terminal state (`connect_bound`; the
+//!    hard-coded 30 s DTLS deadline is added once a DTLS transport visibly exists); at 3 x B after
+//!    signalling completed neither end is Connected/Failed/Closed, the observable state of both ends
+//!    (peer / ICE / gathering / signaling state, ICE role, nomination, selected pair, DTLS state) did not
+//!    change during the last B, and the 10 ms scheduler canary never lagged > 250 ms (a lag restarts the
+//!    window) => violation `connect_stalled[ice=<off>/<ans>;pc=..;role=..;dtls=..]`.  Between B and 3 x B we
+//!    keep waiting; our own watchdog without a witness is *inconclusive* (no wall-clock verdicts);
 //!  * WebRtc mode with a data channel in the mix: one message each way is received byte-identical
 //!    ("a data-channel message ... sent in each direction arrive[s] intact");
 //!  * media in the mix: for each direction and each kind at least one of K paced RTP packets is
@@ -31,6 +39,9 @@
 //!  R2 ICE options ice-tcp / tcp-only / udp-mux only in WebRtc mode: Rtp and Srtp are "direct" modes that
 //!     "skip ICE gathering/connectivity" (peer_connection.rs `is_direct_mode`); ice-lite additionally in Rtp
 //!     mode (build_description documents "ICE-lite in RTP mode"); Srtp gets `plain` only.
+//!     `enable_ice_lite` is accepted by the public configuration in WebRtc mode as well (no doc restricts
+//!     it), so `ice=lite@A` is a WebRtc cell too - with A as the offerer *and* as the answerer (the other
+//!     end is a full agent, R3); the quick subset covers both placements explicitly (T1 below).
 //!  R3 never ice-lite on both ends (a lite agent never initiates checks – RFC 8445 §6.1.1 – so a
 //!     lite/lite pair cannot connect by definition).
 //!  R4 udp-mux on both ends uses *different* mux ports (one shared socket cannot talk to itself; the
@@ -40,10 +51,17 @@
 //!  R6 probation (`probation_max_packets`) only together with latching and only in the direct modes
 //!     Rtp/Srtp, where the remote address is learnt from media; WebRtc gets latching {off,on}.
 //!  R7 bundle policy dimension only where ≥2 m-sections exist (a single section has nothing to bundle).
+//!  R8 workload dimension `order` (in which order the application adds its tracks: `same`, `rev@ans` =
+//!     the answerer adds video first against an audio,video offer, `rev@off` = the offerer adds video
+//!     first) only where ≥2 media kinds exist.  The statement quantifies over configurations, not over the
+//!     call order of `add_track`, and m-sections are paired by MID (or by kind when MID-less), never by the
+//!     local insertion order – so every order is inside the statement.
+//! Quick tier: greedy cover of all value pairs plus two written classes of triples, T1 (mode, asymmetric
+//! option, offerer) and T2 (mode, compat, order≠same) – see `pairwise_subset` – plus `--extra` random cells.
 //! Violation keys: `<projection>,fail=<failure>` where the projection is the *minimal* failing
 //! configuration: after the main pass one representative per (mode, failure) is delta-debugged towards
-//! the baseline cell (bundle=balanced, compat=SS, rtcpmux=RR, ice=plain, latch=off, offerer=A, simplest
-//! media sub-mix) by re-running neighbouring cells; dimensions whose reset keeps the identical failure
+//! the baseline cell (bundle=balanced, compat=SS, rtcpmux=RR, ice=plain, latch=off, offerer=A, order=same,
+//! simplest media sub-mix) by re-running neighbouring cells; dimensions whose reset keeps the identical failure
 //! are dropped (`media=` names the sections needed; larger mixes match).  A failure that does not
 //! reproduce deterministically (a race) is keyed `mode=<m>,fail=<failure>` only.  Keys of open known
 //! findings are matched as projections first, so the steady state needs no minimisation runs.
@@ -86,10 +104,22 @@ const RTCPMUX: &[&str] = &["RR", "NN", "RN"];
 const ICE: &[&str] = &["plain", "lite@A", "tcp", "tcponly", "mux", "mux@A"];
 const LATCH: &[&str] = &["off", "on", "on+probation"];
 const OFFERER: &[&str] = &["A", "B"];
+/// Workload dimension "media add order": the order in which the *application* adds its tracks.
+/// `same`: audio then video on both ends; `rev@ans`: the answerer adds video first (against an
+/// audio,video offer); `rev@off`: the offerer adds video first (video,audio offer against an
+/// answerer that added audio first).  Role-relative on purpose (the offer's m-line order is what matters).
+const ORDER: &[&str] = &["same", "rev@ans", "rev@off"];
 
 const DIM_NAMES: &[&str] = &[
-    "mode", "media", "bundle", "compat", "rtcpmux", "ice", "latch", "offerer",
+    "mode", "media", "bundle", "compat", "rtcpmux", "ice", "latch", "offerer", "order",
 ];
+const NDIM: usize = 9;
+const D_MODE: usize = 0;
+const D_COMPAT: usize = 3;
+const D_RTCPMUX: usize = 4;
+const D_ICE: usize = 5;
+const D_OFFERER: usize = 7;
+const D_ORDER: usize = 8;
 
 #[derive(Clone, Debug, PartialEq, Eq, Hash, PartialOrd, Ord)]
 struct Cell {
@@ -101,6 +131,7 @@ struct Cell {
     ice: &'static str,
     latch: &'static str,
     offerer: &'static str,
+    order: &'static str,
 }
 
 fn intern(table: &[&'static str], s: &str) -> Option<&'static str> {
@@ -108,7 +139,7 @@ fn intern(table: &[&'static str], s: &str) -> Option<&'static str> {
 }
 
 impl Cell {
-    fn dims(&self) -> [&'static str; 8] {
+    fn dims(&self) -> [&'static str; NDIM] {
         [
             self.mode,
             self.media,
@@ -118,12 +149,14 @@ impl Cell {
             self.ice,
             self.latch,
             self.offerer,
+            self.order,
         ]
     }
     fn to_json(&self) -> Value {
         json!({
             "mode": self.mode, "media": self.media, "bundle": self.bundle, "compat": self.compat,
             "rtcpmux": self.rtcpmux, "ice": self.ice, "latch": self.latch, "offerer": self.offerer,
+            "order": self.order,
         })
     }
     fn from_json(v: &Value) -> Option<Cell> {
@@ -136,12 +169,17 @@ impl Cell {
             ice: intern(ICE, v.get("ice")?.as_str()?)?,
             latch: intern(LATCH, v.get("latch")?.as_str()?)?,
             offerer: intern(OFFERER, v.get("offerer")?.as_str()?)?,
+            // replays written before the dimension existed ran with the same order on both ends
+            order: match v.get("order") {
+                Some(o) => intern(ORDER, o.as_str()?)?,
+                None => "same",
+            },
         })
     }
     /// `mode=rtp,media=audio+video,...` – the full projection, used as the prefix of violation keys.
     fn key(&self) -> String {
         format!(
-            "mode={},media={},bundle={},compat={},rtcpmux={},ice={},latch={},offerer={}",
+            "mode={},media={},bundle={},compat={},rtcpmux={},ice={},latch={},offerer={},order={}",
             self.mode,
             self.media,
             self.bundle,
@@ -149,7 +187,8 @@ impl Cell {
             self.rtcpmux,
             self.ice,
             self.latch,
-            self.offerer
+            self.offerer,
+            self.order
         )
     }
     fn has_dc(&self) -> bool {
@@ -193,6 +232,9 @@ impl Cell {
         if self.bundle != "balanced" && self.sections() < 2 {
             return false; // R7
         }
+        if self.order != "same" && self.kinds().len() < 2 {
+            return false; // R8
+        }
         true
     }
 }
@@ -207,18 +249,21 @@ fn full_lattice() -> Vec<Cell> {
                         for &ice in ICE {
                             for &latch in LATCH {
                                 for &offerer in OFFERER {
-                                    let c = Cell {
-                                        mode,
-                                        media,
-                                        bundle,
-                                        compat,
-                                        rtcpmux,
-                                        ice,
-                                        latch,
-                                        offerer,
-                                    };
-                                    if c.valid() {
-                                        out.push(c);
+                                    for &order in ORDER {
+                                        let c = Cell {
+                                            mode,
+                                            media,
+                                            bundle,
+                                            compat,
+                                            rtcpmux,
+                                            ice,
+                                            latch,
+                                            offerer,
+                                            order,
+                                        };
+                                        if c.valid() {
+                                            out.push(c);
+                                        }
                                     }
                                 }
                             }
@@ -231,24 +276,53 @@ fn full_lattice() -> Vec<Cell> {
     out
 }
 
-/// Greedy pairwise (2-way) covering subset of the valid cells, rotated by the seed
-/// (random start, random tie-breaks).  Only pairs that occur in some valid cell count.
+/// Is this value one of the explicitly *asymmetric* settings (the option sits on endpoint A only)?
+fn asymmetric(dim: usize, v: &str) -> bool {
+    match dim {
+        D_COMPAT => v == "SL",
+        D_RTCPMUX => v == "RN",
+        D_ICE => matches!(v, "lite@A" | "mux@A" | "tcponly"),
+        _ => false,
+    }
+}
+
+/// Greedy covering subset of the valid cells, rotated by the seed (random start, random
+/// tie-breaks).  Covered are
+///  * every pair of dimension values (2-way), and
+///  * two written classes of 3-way interactions that pairwise selection cannot guarantee:
+///    T1 (mode, asymmetric option, offerer): an option that sits on one endpoint only is run with
+///       that endpoint as the offerer *and* as the answerer in every mode that admits it (ICE
+///       role / DTLS role / who-declines-what all depend on which end made the offer);
+///    T2 (mode, compat, media add order != same): how m-sections are paired with the local
+///       transceivers (by MID with BUNDLE, by kind/position without) depends on mode and compat,
+///       so each reversed order is run in every (mode, compat) regime.
+/// Only tuples that occur in some valid cell count.
 fn pairwise_subset(cells: &[Cell], rng: &mut Rng) -> Vec<usize> {
-    type Pair = (usize, &'static str, usize, &'static str);
-    let pairs_of = |c: &Cell| -> Vec<Pair> {
+    type Tuple = (usize, &'static str, usize, &'static str, usize, &'static str);
+    const NONE: (usize, &str) = (usize::MAX, "");
+    let tuples_of = |c: &Cell| -> Vec<Tuple> {
         let d = c.dims();
         let mut v = vec![];
         for i in 0..d.len() {
             for j in (i + 1)..d.len() {
-                v.push((i, d[i], j, d[j]));
+                v.push((i, d[i], j, d[j], NONE.0, NONE.1));
             }
+        }
+        for i in [D_COMPAT, D_RTCPMUX, D_ICE] {
+            if asymmetric(i, d[i]) {
+                v.push((D_MODE, d[D_MODE], i, d[i], D_OFFERER, d[D_OFFERER])); // T1
+            }
+        }
+        if d[D_ORDER] != "same" {
+            v.push((D_MODE, d[D_MODE], D_COMPAT, d[D_COMPAT], D_ORDER, d[D_ORDER])); // T2
         }
         v
     };
-    let mut uncovered: HashSet<Pair> = HashSet::new();
+    let mut uncovered: HashSet<Tuple> = HashSet::new();
     for c in cells {
-        uncovered.extend(pairs_of(c));
+        uncovered.extend(tuples_of(c));
     }
+    let all: Vec<Vec<Tuple>> = cells.iter().map(|c| tuples_of(c)).collect();
     let mut chosen = vec![];
     let mut order: Vec<usize> = (0..cells.len()).collect();
     while !uncovered.is_empty() {
@@ -256,18 +330,15 @@ fn pairwise_subset(cells: &[Cell], rng: &mut Rng) -> Vec<usize> {
         let mut best = None;
         let mut best_n = 0usize;
         for &i in &order {
-            let n = pairs_of(&cells[i])
-                .iter()
-                .filter(|p| uncovered.contains(*p))
-                .count();
+            let n = all[i].iter().filter(|p| uncovered.contains(*p)).count();
             if n > best_n {
                 best_n = n;
                 best = Some(i);
             }
         }
         let Some(b) = best else { break };
-        for p in pairs_of(&cells[b]) {
-            uncovered.remove(&p);
+        for p in &all[b] {
+            uncovered.remove(p);
         }
         chosen.push(b);
     }
@@ -350,12 +421,46 @@ fn mode_of(s: &str) -> TransportMode {
     }
 }
 
+// Connection-phase timers of both endpoints (`RtcConfiguration`; defaults are 5 s / 10 s / 120 s /
+// 30 s / 60 s).  The values are the ones the C17 engine has been running with on this machine.
+const T_STUN: Duration = Duration::from_millis(1000);
+const T_NOMINATION: Duration = Duration::from_millis(1000);
+const T_ICE_CONNECTION: Duration = Duration::from_millis(4000);
+const T_ICE_DISCONNECT_THRESHOLD: Duration = Duration::from_millis(2000);
+const T_ICE_DISCONNECT_GRACE: Duration = Duration::from_millis(1000);
+/// rustrtc's hard-coded DTLS handshake deadline (src/transports/dtls/mod.rs).
+const T_DTLS_DEADLINE: Duration = Duration::from_secs(30);
+
+/// B: the longest chain of configured timeouts that can elapse after signalling completed before a
+/// PeerConnection either reports Connected or a terminal state (Failed / Closed):
+///   connectivity checks: each check gives up after `stun_timeout`; a Checking transport that hears
+///     nothing fails after `ice_connection_timeout`;
+///   nomination: the connection loop waits `6 x nomination_timeout` for nomination_complete
+///     (peer_connection.rs run_ice_dtls_loop), a nominating check gives up after `nomination_timeout` (=> Failed);
+///   silence on a Connected transport: Disconnected after `ice_disconnect_threshold`
+///     (< `ice_connection_timeout`, same clock), torn down `ice_disconnect_grace` later, or Failed after
+///     `ice_connection_timeout`;
+///   DTLS: fixed 30 s deadline (=> DtlsFailed), counted only once a DTLS transport visibly exists.
+/// The phases are summed although several overlap: a larger B only delays the witness.
+fn connect_bound(dtls_started: bool) -> Duration {
+    debug_assert!(T_ICE_DISCONNECT_THRESHOLD <= T_ICE_CONNECTION);
+    let b = T_STUN + T_NOMINATION * 6 + T_ICE_CONNECTION + T_ICE_DISCONNECT_GRACE;
+    if dtls_started { b + T_DTLS_DEADLINE } else { b }
+}
+
 /// Build the two configurations of a cell (A, B).  `Err` = harness could not reserve ports.
 fn configs(cell: &Cell) -> Result<(RtcConfiguration, RtcConfiguration), String> {
     let mut a = RtcConfiguration::default();
     let mut b = RtcConfiguration::default();
     for c in [&mut a, &mut b] {
         c.transport_mode = mode_of(cell.mode);
+        // every configurable connection-phase timer is set small, so that "within the configured
+        // timeouts" is a short bound (see `connect_bound`)
+        c.stun_timeout = T_STUN;
+        c.nomination_timeout = T_NOMINATION;
+        c.ice_connection_timeout = T_ICE_CONNECTION;
+        c.ice_disconnect_threshold = T_ICE_DISCONNECT_THRESHOLD;
+        c.ice_disconnect_grace = T_ICE_DISCONNECT_GRACE;
         c.bundle_policy = match cell.bundle {
             "maxcompat" => BundlePolicy::MaxCompat,
             "maxbundle" => BundlePolicy::MaxBundle,
@@ -437,7 +542,18 @@ fn make_side(name: &'static str, mut cfg: RtcConfiguration, cell: &Cell) -> Resu
     cfg.recorder_interceptors.senders.push(sent.clone());
     let pc = PeerConnection::new(cfg);
     let mut sources = vec![];
-    for kind in cell.kinds() {
+    // dimension `order`: the reversed end adds video before audio
+    let is_offerer = (name == "A") == (cell.offerer == "A");
+    let reversed = match cell.order {
+        "rev@off" => is_offerer,
+        "rev@ans" => !is_offerer,
+        _ => false,
+    };
+    let mut kinds = cell.kinds();
+    if reversed {
+        kinds.reverse();
+    }
+    for kind in kinds {
         let fk = if kind == MediaKind::Video {
             FrameKind::Video
         } else {
@@ -591,6 +707,56 @@ fn through_text(d: &SessionDescription) -> Result<SessionDescription, rustrtc::S
 const K_RTP: u32 = 50; // paced RTP packets per (direction, kind) before non-delivery is a witness
 const CANARY_LIMIT_MS: u64 = 250;
 
+/// Everything about the connection phase of one PeerConnection that is observable from outside.
+#[derive(Clone, Debug, PartialEq, Eq)]
+struct ConnSnapshot {
+    pc: String,
+    ice: String,
+    ice_transport: String,
+    role: String,
+    gathering: String,
+    signaling: String,
+    nomination: String,
+    pair: String,
+    dtls: String,
+    reason: String,
+}
+impl ConnSnapshot {
+    fn to_json(&self) -> Value {
+        json!({"peer_state": self.pc, "ice_connection_state": self.ice, "ice_transport_state": self.ice_transport,
+               "ice_role": self.role, "gathering": self.gathering, "signaling": self.signaling,
+               "nomination_complete": self.nomination, "selected_pair": self.pair, "dtls": self.dtls,
+               "disconnect_reason": self.reason})
+    }
+    fn line(&self) -> String {
+        format!(
+            "[pc={} ice={} role={} nomination={} pair={} dtls={}]",
+            self.pc, self.ice, self.role, self.nomination, self.pair, self.dtls
+        )
+    }
+}
+fn conn_snapshot(pc: &PeerConnection) -> ConnSnapshot {
+    let it = pc.ice_transport();
+    ConnSnapshot {
+        pc: format!("{:?}", *pc.subscribe_peer_state().borrow()),
+        ice: format!("{:?}", *pc.subscribe_ice_connection_state().borrow()),
+        ice_transport: format!("{:?}", it.state()),
+        role: format!("{:?}", it.role()),
+        gathering: format!("{:?}", it.gather_state()),
+        signaling: format!("{:?}", pc.signaling_state()),
+        nomination: format!("{:?}", *it.subscribe_nomination_complete().borrow()),
+        pair: match it.get_selected_pair() {
+            Some(p) => format!("{}:{:?}>{}:{:?}", p.local.transport, p.local.typ, p.remote.transport, p.remote.typ),
+            None => "none".into(),
+        },
+        dtls: match pc.verif_dtls() {
+            Some(d) => format!("{}", *d.subscribe_state().borrow()),
+            None => "none".into(),
+        },
+        reason: format!("{:?}", pc.disconnect_reason()),
+    }
+}
+
 async fn run_cell(cell: &Cell, payload_seed: u64, watchdog: Duration) -> Outcome {
     let mut obs: BTreeMap<String, Value> = BTreeMap::new();
     let inconclusive = |why: String, obs: BTreeMap<String, Value>| Outcome {
@@ -728,28 +894,58 @@ async fn run_cell_inner(
         }
 
         // ------------------------------------------------ both report Connected
-        for s in [&*a, &*b] {
-            match tokio::time::timeout(watchdog, s.pc.wait_for_connected()).await {
-                Err(_) => {
-                    let st = *s.pc.subscribe_peer_state().borrow();
-                    let ice = *s.pc.subscribe_ice_connection_state().borrow();
-                    obs.insert(
-                        format!("stuck_{}", s.name),
-                        json!({"peer_state": format!("{st:?}"), "ice_state": format!("{ice:?}")}),
-                    );
-                    return Outcome {
-                        verdict: Verdict::Inconclusive(format!(
-                            "watchdog waiting for Connected on {} (peer_state={st:?}, ice={ice:?}) cell {}",
-                            s.name,
-                            cell.key()
-                        )),
-                        obs,
-                        nontrivial: false,
-                    };
+        // Three outcomes: both `wait_for_connected()` resolve Ok (go on); one resolves Err (the
+        // connection itself reported Failed/Closed: violation); neither - then the *stall witness*
+        // decides (DESIGN 2.3, quiet form): at 3 x B after signalling completed neither end is
+        // Connected nor terminal, the observable state of both ends has not changed during the last
+        // B, and the scheduler canary never lagged (a lag restarts the 3 x B window).  Between B and
+        // 3 x B we keep waiting; our own watchdog without a witness stays inconclusive.
+        {
+            let t_sig = Instant::now();
+            let canary = Canary::start();
+            let (off, ans) = if a_offers { (&*a, &*b) } else { (&*b, &*a) };
+            let fa = a.pc.wait_for_connected();
+            let fb = b.pc.wait_for_connected();
+            tokio::pin!(fa, fb);
+            let (mut ra, mut rb): (Option<Result<(), String>>, Option<Result<(), String>>) = (None, None);
+            let mut window_start = t_sig;
+            let mut last_change = t_sig;
+            let mut last_snap = (conn_snapshot(&off.pc), conn_snapshot(&ans.pc));
+            let mut dtls_started = false;
+            let mut changes = 0u32;
+            let mut lag_restarts = 0u32;
+            let mut worst_lag = 0u64;
+            loop {
+                tokio::select! {
+                    r = &mut fa, if ra.is_none() => ra = Some(r.map_err(|e| format!("{e}"))),
+                    r = &mut fb, if rb.is_none() => rb = Some(r.map_err(|e| format!("{e}"))),
+                    _ = tokio::time::sleep(Duration::from_millis(25)) => {}
                 }
-                Ok(Err(e)) => {
+                for (s, r) in [(&*a, &ra), (&*b, &rb)] {
+                    let Some(Err(msg)) = r else { continue };
                     let reason = s.pc.disconnect_reason();
-                    let msg = format!("{e}");
+                    let lag = canary.lag().max(worst_lag);
+                    // The ICE timers of this cell are deliberately tight (1-4 s instead of 5-120 s): a
+                    // timer-driven ICE failure while the process was starved is our doing, not rustrtc's.
+                    if lag > CANARY_LIMIT_MS
+                        && matches!(
+                            reason,
+                            Some(rustrtc::DisconnectReason::IceFailed)
+                                | Some(rustrtc::DisconnectReason::IceDisconnected)
+                        )
+                    {
+                        obs.insert("connect_failed_under_lag".into(), json!({"side": s.name, "lag_ms": lag,
+                            "reason": format!("{reason:?}")}));
+                        return Outcome {
+                            verdict: Verdict::Inconclusive(format!(
+                                "{} reported {reason:?} while the scheduler canary lagged {lag} ms (tight ICE timers), cell {}",
+                                s.name,
+                                cell.key()
+                            )),
+                            obs,
+                            nontrivial: false,
+                        };
+                    }
                     return Outcome {
                         verdict: fail(
                             cell,
@@ -759,13 +955,98 @@ async fn run_cell_inner(
                                 s.name
                             ),
                             json!({"side": s.name, "error": msg, "disconnect_reason": format!("{reason:?}"),
+                                   "after_ms": t_sig.elapsed().as_millis() as u64,
                                    "offer": obs.get("offer"), "answer": obs.get("answer")}),
                         ),
                         obs,
                         nontrivial: false,
                     };
                 }
-                Ok(Ok(())) => {}
+                if matches!((&ra, &rb), (Some(Ok(())), Some(Ok(())))) {
+                    break;
+                }
+                // ---- stall observer
+                let now = Instant::now();
+                let snap = (conn_snapshot(&off.pc), conn_snapshot(&ans.pc));
+                if snap != last_snap {
+                    last_snap = snap;
+                    last_change = now;
+                    changes += 1;
+                }
+                if !dtls_started && (a.pc.verif_dtls().is_some() || b.pc.verif_dtls().is_some()) {
+                    dtls_started = true;
+                }
+                let lag = canary.lag();
+                if lag > CANARY_LIMIT_MS {
+                    worst_lag = worst_lag.max(lag);
+                    lag_restarts += 1;
+                    window_start = now;
+                    canary.reset();
+                }
+                let bound = connect_bound(dtls_started);
+                let stalled = now.duration_since(window_start) >= (bound * 3).max(Duration::from_secs(3))
+                    && now.duration_since(last_change) >= bound;
+                let expired = t_sig.elapsed() >= watchdog;
+                if !stalled && !expired {
+                    continue;
+                }
+                let (so, sa) = (&last_snap.0, &last_snap.1);
+                let stuck = json!({
+                    "offerer": so.to_json(), "answerer": sa.to_json(),
+                    "offerer_is": off.name,
+                    "since_signalling_ms": t_sig.elapsed().as_millis() as u64,
+                    "state_unchanged_for_ms": now.duration_since(last_change).as_millis() as u64,
+                    "state_changes_seen": changes,
+                    "bound_B_ms": bound.as_millis() as u64,
+                    "dtls_started": dtls_started,
+                    "canary_max_lag_ms": lag.max(worst_lag),
+                    "canary_window_restarts": lag_restarts,
+                });
+                obs.insert("stuck".into(), stuck.clone());
+                if stalled {
+                    let fkey = format!(
+                        "connect_stalled[ice={}/{};pc={}/{};role={}/{};dtls={}]",
+                        so.ice, sa.ice, so.pc, sa.pc, so.role, sa.role,
+                        if dtls_started { "started" } else { "none" }
+                    );
+                    return Outcome {
+                        verdict: fail(
+                            cell,
+                            &fkey,
+                            format!(
+                                "{} ms after the offer/answer exchange completed (3 x B, B = {} ms = sum of the configured \
+                                 stun/nomination/ice-connection/disconnect timeouts{}) neither end reports Connected, Failed or \
+                                 Closed, and nothing observable changed on either end for the last {} ms (canary lag <= {} ms): \
+                                 offerer {} / answerer {}",
+                                now.duration_since(window_start).as_millis(),
+                                bound.as_millis(),
+                                if dtls_started { " + the 30 s DTLS deadline" } else { "" },
+                                now.duration_since(last_change).as_millis(),
+                                CANARY_LIMIT_MS,
+                                so.line(),
+                                sa.line()
+                            ),
+                            json!({"stall": stuck, "timers_ms": {"stun_timeout": T_STUN.as_millis() as u64,
+                                   "nomination_timeout": T_NOMINATION.as_millis() as u64,
+                                   "ice_connection_timeout": T_ICE_CONNECTION.as_millis() as u64,
+                                   "ice_disconnect_threshold": T_ICE_DISCONNECT_THRESHOLD.as_millis() as u64,
+                                   "ice_disconnect_grace": T_ICE_DISCONNECT_GRACE.as_millis() as u64},
+                                   "offer": obs.get("offer"), "answer": obs.get("answer")}),
+                        ),
+                        obs,
+                        nontrivial: false,
+                    };
+                }
+                return Outcome {
+                    verdict: Verdict::Inconclusive(format!(
+                        "watchdog waiting for Connected without a stall witness (offerer {} / answerer {}) cell {}",
+                        so.line(),
+                        sa.line(),
+                        cell.key()
+                    )),
+                    obs,
+                    nontrivial: false,
+                };
             }
         }
         obs.insert("connected".into(), json!(true));
@@ -1475,7 +1756,7 @@ fn scenario(cell: &Cell, payload_seed: u64) -> Value {
     json!({"cell": cell.to_json(), "payload_seed": payload_seed})
 }
 
-const BASELINE: [Option<&str>; 8] = [
+const BASELINE: [Option<&str>; NDIM] = [
     None,             // mode: always part of the key
     None,             // media: always part of the key (reduced to the simplest failing sub-mix)
     Some("balanced"), // bundle
@@ -1484,6 +1765,7 @@ const BASELINE: [Option<&str>; 8] = [
     Some("plain"),    // ice
     Some("off"),      // latch
     Some("A"),        // offerer
+    Some("same"),     // order
 ];
 
 fn with_dim(c: &Cell, d: usize, v: &'static str) -> Cell {
@@ -1496,7 +1778,20 @@ fn with_dim(c: &Cell, d: usize, v: &'static str) -> Cell {
         4 => n.rtcpmux = v,
         5 => n.ice = v,
         6 => n.latch = v,
-        _ => n.offerer = v,
+        7 => n.offerer = v,
+        _ => n.order = v,
+    }
+    n
+}
+
+/// Replace the media mix and reset the dimensions that only exist for larger mixes (R7, R8).
+fn with_media(c: &Cell, m: &'static str) -> Cell {
+    let mut n = with_dim(c, 1, m);
+    if n.sections() < 2 {
+        n.bundle = "balanced"; // R7
+    }
+    if n.kinds().len() < 2 {
+        n.order = "same"; // R8
     }
     n
 }
@@ -1505,7 +1800,7 @@ fn with_dim(c: &Cell, d: usize, v: &'static str) -> Cell {
 fn projection_key(c: &Cell, keep_all: bool, media_relevant: bool) -> String {
     let d = c.dims();
     let mut parts = vec![];
-    for i in 0..8 {
+    for i in 0..NDIM {
         if i == 1 && !media_relevant && !keep_all {
             continue;
         }
@@ -1665,7 +1960,7 @@ async fn minimise_inner(
     // round 1: every single-dimension reset and every media sub-mix, concurrently
     let mut cands: Vec<Cell> = vec![];
     let d = cell.dims();
-    for i in 2..8 {
+    for i in 2..NDIM {
         if let Some(b) = BASELINE[i] {
             if d[i] != b {
                 let c = with_dim(&cell, i, intern_any(b));
@@ -1676,10 +1971,7 @@ async fn minimise_inner(
         }
     }
     for m in sub_mixes(cell.media) {
-        let mut c = with_dim(&cell, 1, m);
-        if !c.valid() && c.bundle != "balanced" {
-            c.bundle = "balanced"; // R7
-        }
+        let c = with_media(&cell, m);
         if c.valid() {
             cands.push(c);
         }
@@ -1697,19 +1989,13 @@ async fn minimise_inner(
     // jump: reset everything that was individually irrelevant
     let mut reduced = cell.clone();
     for m in sub_mixes(cell.media) {
-        let mut c = with_dim(&cell, 1, m);
-        if !c.valid() && c.bundle != "balanced" {
-            c.bundle = "balanced";
-        }
+        let c = with_media(&cell, m);
         if still_fails.contains_key(&c) {
-            reduced.media = m;
-            if reduced.sections() < 2 {
-                reduced.bundle = "balanced";
-            }
+            reduced = with_media(&reduced, m);
             break;
         }
     }
-    for i in 2..8 {
+    for i in 2..NDIM {
         if let Some(b) = BASELINE[i] {
             if d[i] != b && still_fails.contains_key(&with_dim(&cell, i, intern_any(b))) {
                 reduced = with_dim(&reduced, i, intern_any(b));
@@ -1726,17 +2012,11 @@ async fn minimise_inner(
     let mut cur = cell.clone();
     let mut cur_fail = fail.clone();
     let mut any = false;
-    for i in (1..8).rev() {
+    for i in (1..NDIM).rev() {
         let tries: Vec<Cell> = if i == 1 {
             sub_mixes(cur.media)
                 .into_iter()
-                .map(|m| {
-                    let mut c = with_dim(&cur, 1, m);
-                    if c.sections() < 2 {
-                        c.bundle = "balanced";
-                    }
-                    c
-                })
+                .map(|m| with_media(&cur, m))
                 .collect()
         } else {
             match BASELINE[i] {
@@ -1764,7 +2044,7 @@ async fn minimise_inner(
 }
 
 fn intern_any(s: &str) -> &'static str {
-    for t in [MODES, MEDIA, BPOL, COMPAT, RTCPMUX, ICE, LATCH, OFFERER] {
+    for t in [MODES, MEDIA, BPOL, COMPAT, RTCPMUX, ICE, LATCH, OFFERER, ORDER] {
         if let Some(x) = intern(t, s) {
             return x;
         }
@@ -1783,11 +2063,14 @@ pub fn run(args: &Args) -> i32 {
     report.assume("'compatible' = same transport mode; invalid combinations are removed by rules R1..R7 written in engines/lattice.rs");
     report.assume("the RTP reference is what rustrtc's own RtpSenderInterceptor reports as sent (post documented seq/timestamp rewrite); payloads are compared against the harness-generated bytes");
     report.assume("watchdog expiry (no Failed/Closed reported by rustrtc) is inconclusive, never a violation");
+    report.assume("'within the configured timeouts': all configurable connection-phase timers are set small (stun 1 s, nomination 1 s, ice connection 4 s, disconnect threshold 2 s, grace 1 s); a connect that neither completes nor fails is a violation only by the stall witness: 3 x B after signalling (B = stun + 6 x nomination + ice connection + grace = 12 s; + 30 s DTLS deadline once a DTLS transport exists) neither end is Connected/Failed/Closed, no observable state changed for the last B, canary lag <= 250 ms");
+    report.assume("an ICE failure (IceFailed/IceDisconnected) reported while the scheduler canary lagged > 250 ms is inconclusive (the tight ICE timers are the harness's choice)");
     report.max_samples = 8;
 
     let lattice = full_lattice();
     let all_n = lattice.len();
-    let watchdog = Duration::from_secs(args.tier.pick(40, 75));
+    // must leave room for the stall witness (3 x B = 36 s) plus one canary-lag restart early in the wait
+    let watchdog = Duration::from_secs(args.tier.pick(60, 90));
     let concurrency: usize = args
         .opt("--concurrency")
         .and_then(|s| s.parse().ok())
@@ -1861,12 +2144,20 @@ pub fn run(args: &Args) -> i32 {
         "lattice".into(),
         json!({
             "dimensions": {"mode": MODES, "media": MEDIA, "bundle": BPOL, "compat": COMPAT, "rtcpmux": RTCPMUX,
-                            "ice": ICE, "latch": LATCH, "offerer": OFFERER},
+                            "ice": ICE, "latch": LATCH, "offerer": OFFERER, "order": ORDER},
             "valid_cells": all_n,
             "cells_run": picked.len(),
             "rules": ["R1 dc only webrtc", "R2 ice tcp/tcponly/mux only webrtc; lite also rtp; srtp plain",
                       "R3 never lite on both ends", "R4 mux/mux uses two different ports", "R5 tcponly: A active, B passive with tcp_port_range",
-                      "R6 probation only rtp/srtp", "R7 bundle policy only with >=2 m-sections"],
+                      "R6 probation only rtp/srtp", "R7 bundle policy only with >=2 m-sections",
+                      "R8 media add order only with >=2 media kinds"],
+            "quick_coverage": "all pairs + triples (mode, asymmetric option, offerer) + triples (mode, compat, order!=same)",
+            "connect_timers_ms": {"stun_timeout": T_STUN.as_millis() as u64, "nomination_timeout": T_NOMINATION.as_millis() as u64,
+                                   "ice_connection_timeout": T_ICE_CONNECTION.as_millis() as u64,
+                                   "ice_disconnect_threshold": T_ICE_DISCONNECT_THRESHOLD.as_millis() as u64,
+                                   "ice_disconnect_grace": T_ICE_DISCONNECT_GRACE.as_millis() as u64,
+                                   "bound_B": connect_bound(false).as_millis() as u64,
+                                   "bound_B_dtls_started": connect_bound(true).as_millis() as u64},
         }),
     );
 
